@@ -185,6 +185,28 @@ RunOut Session::run(std::vector<u64> const& calls, RunCtl const& ctl)
         rep.fail("C04", "hang", key_of(p), out.hang_why);
     }
 
+    // under MPI every rank must take the same stop decision after every iteration (otherwise the
+    // ranks that go on wait for the others forever)
+    if (out.ranks.size() > 1)
+    {
+        auto const& c0 = out.ranks[0].cbs;
+        for (std::size_t r = 1; r != out.ranks.size(); ++r)
+        {
+            auto const& cr = out.ranks[r].cbs;
+            for (std::size_t i = 0; i != c0.size() && i != cr.size(); ++i)
+            {
+                if (c0[i].ret != cr[i].ret)
+                {
+                    rep.fail("C12", "ranks-disagree-on-stop", fmt("%s mpi", integ_name(p.integ)), fmt(
+                        "after iteration %zu the callback returned %s on rank 0 and %s on rank %zu%s", i,
+                        c0[i].ret ? "true" : "false", cr[i].ret ? "true" : "false", r,
+                        out.hang ? " (the run hung)" : ""));
+                    break;
+                }
+            }
+        }
+    }
+
     if (check && !out.killed && !out.hang && !out.threw)
     {
         ChkptView const v = w->view();
